@@ -43,8 +43,107 @@ def make_env(rng, gi, cyclic_every=3, ncls=None, depth=2):
                            cyclic=(cyclic_every and gi % cyclic_every == cyclic_every - 1), depth=depth)
 
 
+# ----------------------------------------------------------------------------------
+# stratum "hash-order": set / frozenset / dict-key positions whose member converts to an UNHASHABLE value
+# (list[int], dict[str, int], a non-frozen dataclass with eq).  The code hands a generator to set / frozenset / dict,
+# so the element (key) is hashed as soon as it is produced: an unhashable result is a TypeError BEFORE a later member
+# is converted.  Inputs: (a) every member converts, (b) a LATER member fails with ValueError (the corner where
+# "convert every member, then hash" reports the ValueError and the code the TypeError), (c) an EARLIER member fails,
+# (s) the value of the same pair fails (key, value, THEN the key is hashed).  Both directions.
+# ----------------------------------------------------------------------------------
+HASH_ORDER = True
+
+
+def hash_order_group(run, rng, sup):
+    import collections
+    import json as _json
+    LI = ("seq", "KList", "list[{}]", ("leaf", "int"))
+    DI = ("map", "KDict", "dict[{}, {}]", ("leaf", "str"), ("leaf", "int"))
+    INT = ("leaf", "int")
+    env = {"module": coregen.new_module_name("h"), "defs": {
+        0: ("class", "dataclass", "", [("a", INT, None)]),                  # eq without frozen: __hash__ is None
+        1: ("class", "dataclass", "frozen=True", [("a", INT, None)]),      # hashable instances; marshals to a dict
+    }}
+    set_sp = rng.choice(["set[{}]", "typing.Set[{}]", "typing.AbstractSet[{}]"])
+    fs_sp = rng.choice(["frozenset[{}]", "typing.FrozenSet[{}]"])
+    d_sp = rng.choice(["dict[{}, {}]", "typing.Dict[{}, {}]", "typing.Mapping[{}, {}]"])
+    u_roots = [("seq", "KSet", set_sp, LI), ("seq", "KFrozenset", fs_sp, LI), ("seq", "KSet", "set[{}]", DI),
+               ("seq", "KFrozenset", "frozenset[{}]", ("name", 0)),
+               ("map", "KDict", d_sp, LI, INT), ("map", "KOrderedDict", "collections.OrderedDict[{}, {}]", ("name", 0), INT),
+               ("map", "KDict", "dict[{}, {}]", DI, LI)]
+    m_roots = [("map", "KDict", d_sp, ("seq", "KTuple", "tuple[{}, ...]", INT), INT),
+               ("map", "KDict", "dict[{}, {}]", ("name", 1), INT),
+               ("map", "KOrderedDict", "typing.OrderedDict[{}, {}]", ("seq", "KFrozenset", "frozenset[{}]", INT), INT)]
+    g = coremodel.Group(env, u_roots + m_roots, sup)
+    g.stratum = "hash-order"
+    g.strict_kinds = True      # the corner IS the exception kind (TypeError of the hash vs the later member's ValueError)
+    i1, i2, i3 = rng.sample(range(1, 50), 3)
+
+    def member(t, i, bad=False):          # a wire member converting to an unhashable value / failing with ValueError
+        v = "x" if bad else i
+        return [v] if t == LI else {"k": v} if t == DI else {"a": v}
+
+    def put(direction, ri, x, sub):
+        g.add(direction, ri, x)
+        g.cases[-1][4]["stratum"] = "hash-order:" + sub
+
+    for ri, r in enumerate(u_roots):
+        if r[0] == "seq":
+            t = r[3]
+            a, b, c = member(t, i1), member(t, i2), member(t, i3)
+            bad = member(t, 0, True)
+            put("u", ri, [], "empty")
+            put("u", ri, [a, b], "a")
+            put("u", ri, [a, bad], "b")
+            put("u", ri, [a, b, bad, c], "b")
+            put("u", ri, _json.dumps([a, bad]), "b")
+            put("u", ri, (a, bad), "b")
+            put("u", ri, [bad, a], "c")
+        else:
+            kt, vt = r[3], r[4]
+            k1, k2, kbad = member(kt, i1), member(kt, i2), member(kt, 0, True)
+            v1, v2, vbad = (i1, i2, "x") if vt == INT else (member(vt, i1), member(vt, i2), member(vt, 0, True))
+            put("u", ri, [], "empty")
+            put("u", ri, [[k1, v1], [k2, v2]], "a")
+            put("u", ri, [[k1, v1], [k2, vbad]], "b")
+            put("u", ri, [[k1, v1], [kbad, v2]], "b")
+            put("u", ri, _json.dumps([[k1, v1], [k2, vbad]]), "b")
+            put("u", ri, [[kbad, v1], [k1, v2]], "c")
+            put("u", ri, [[k1, vbad]], "s")
+    C1 = getattr(g.mod, coregen.cname(1))
+    for j, r in enumerate(m_roots):
+        ri = len(u_roots) + j
+        kt = r[3]
+        mk = ((lambda v: (v,)) if kt[0] == "seq" and kt[1] == "KTuple" else
+              (lambda v: frozenset([v])) if kt[0] == "seq" else (lambda v: C1(a=v)))
+        D = collections.OrderedDict if r[1] == "KOrderedDict" else dict
+        k1, k2, kbad = mk(i1), mk(i2), mk("x")
+        put("m", ri, D(), "empty")
+        put("m", ri, D([(k1, i1), (k2, i2)]), "a")
+        put("m", ri, D([(k1, i1), (k2, "x")]), "b")
+        put("m", ri, D([(k1, i1), (kbad, i2)]), "b")
+        put("m", ri, D([(k1, i1), (k2, i2), (mk(i3), "x")]), "b")
+        put("m", ri, D([(kbad, i1), (k1, i2)]), "c")
+        put("m", ri, D([(k1, "x")]), "s")
+    return g
+
+
+def hash_order_dist(groups):
+    out = {}
+    for g in groups:
+        if getattr(g, "stratum", None) == "hash-order":
+            for c in g.cases:
+                key = "hash_order_" + c[4].get("stratum", "hash-order:?").split(":")[1] + "_" + c[0]
+                out[key] = out.get(key, 0) + 1
+                if "EType" in c[3]:
+                    out["hash_order_observed_TypeError"] = out.get("hash_order_observed_TypeError", 0) + 1
+    if out:
+        out["hash_order_cases"] = sum(v for k, v in out.items() if k != "hash_order_observed_TypeError")
+    return out
+
+
 def generate(run, n_groups, seed_offset=0, values_per_root=3, extra_roots=3, cyclic_every=3, depth=2,
-             env_fn=None, roots_fn=None, with_pool=True, value_depth=3):
+             env_fn=None, roots_fn=None, with_pool=True, value_depth=3, hash_order=None):
     rng = random.Random(run.seed * 1000 + seed_offset)
     sup = suppressed()
     groups, records = [], []
@@ -72,6 +171,9 @@ def generate(run, n_groups, seed_offset=0, values_per_root=3, extra_roots=3, cyc
                         rec.inputs.append((tag, x, obs))
                 records.append(rec)
         groups.append(g)
+    if (HASH_ORDER if hash_order is None else hash_order) and with_pool and n_groups:
+        # no Record: the properties' own oracles work on valid values; these groups carry correspondence cases only
+        groups.append(hash_order_group(run, random.Random(run.seed * 1000 + seed_offset + 77), sup))
     return groups, records
 
 
@@ -83,6 +185,7 @@ def correspond_core(run, groups, tag, layer="core-unm-mar", strict=False):
     dist = {"groups": len(groups), "marshal_cases": sum(1 for g in groups for c in g.cases if c[0] == "m"),
             "unmarshal_cases": sum(1 for g in groups for c in g.cases if c[0] == "u"),
             "observed_raise": raised, "observed_ok": ncases - raised}
+    dist.update(hash_order_dist(groups))
     run.record_corr(layer, ncases, [g.cases[i][4] for g, i in bad], distinct, dist)
     if groups and groups[0].cases:
         run.samples.append(groups[0].cases[0][4])
